@@ -420,7 +420,7 @@ pub open spec fn loop_free_row<S: DSet>(ds: &S, i: int) -> bool {
 pub open spec fn loop_free<S: DSet>(ds: &S) -> bool {
     forall|i: int| 0 <= i <= ds.sdim() ==> #[trigger] loop_free_row(ds, i)
 }
-//@ begin src/dsets.rs :: trait DSet: Sized :: fn is_loopless | props=C02
+//@ begin src/dsets.rs :: trait DSet: Sized :: fn is_loopless | props=C02,C05
 //@ rw R11 /fn is_loopless\(&self\)/pub fn is_loopless<S: DSet>(this: &S)/
 //@ rw R11 /\bself\b/this/
 //@ rw R16 /-> bool/-> (r: bool)/
@@ -4278,7 +4278,7 @@ pub open spec fn om_spec<S: DSet>(ds: &S, i: int, d: int, ori: Seq<Sign>) -> boo
         None => true,
     }
 }
-//@ begin src/dsets.rs :: trait DSet: Sized :: fn orientations_match | props=C02
+//@ begin src/dsets.rs :: trait DSet: Sized :: fn orientations_match | props=C02,C05
 //@ rw R11 /fn orientations_match\(&self, /pub fn orientations_match<S: DSet>(this: &S, /
 //@ rw R11 /\bself\b/this/
 //@ rw R16 /-> bool/-> (b: bool)/
@@ -4308,7 +4308,7 @@ pub open spec fn om_row<S: DSet>(ds: &S, i: int, ori: Seq<Sign>) -> bool {
 pub open spec fn weakly_oriented<S: DSet>(ds: &S) -> bool {
     forall|i: int| 0 <= i <= ds.sdim() ==> #[trigger] om_row(ds, i, po_spec(ds))
 }
-//@ begin src/dsets.rs :: trait DSet: Sized :: fn is_weakly_oriented | props=C02
+//@ begin src/dsets.rs :: trait DSet: Sized :: fn is_weakly_oriented | props=C02,C05
 //@ rw R11 /fn is_weakly_oriented\(&self\)/pub fn is_weakly_oriented<S: DSet>(this: &S)/
 //@ rw R11 /\bself\b/this/
 //@ rw R16 /-> bool/-> (r: bool)/
